@@ -846,10 +846,10 @@ def run(ctx):
         else:
             chk_mean_helper(ctx, rng)
         ctx.case(("h", i, ctx.shard), nontrivial=True)
-        if i % 512 == 0 and ctx.time_left() < 0.75 * BUDGET_S[ctx.tier]:
+        if i % 512 == 0 and ctx.time_left() < 0.8 * BUDGET_S[ctx.tier]:
             break
     n_real = ctx.scale(60, 6000)
-    t_real = 0.30 * BUDGET_S[ctx.tier]
+    t_real = 0.20 * BUDGET_S[ctx.tier]
     import time as _t
 
     t0 = _t.time()
